@@ -116,7 +116,7 @@ fn judge_file(out: &mut Out, st: &mut St, cfg: &Cfg, kind: &str, wr: Writer, pcm
     }
     if total != (pcm.len() / cfg.ch as usize) as u64 { out.viol("sample-count-wrong", &format!("frames hold {} samples per channel, {} were encoded", total, pcm.len() / cfg.ch as usize), &input); }
     if si.minimum_block_size != cfg.bs || si.maximum_block_size != cfg.bs { out.viol("streaminfo-block-size", &format!("STREAMINFO block size {}..{} for option {}", si.minimum_block_size, si.maximum_block_size, cfg.bs), &input); }
-    if st.cases < st.max_cases && file.len() < 12000 {
+    if st.cases < st.max_cases && file.len() < 12000 && pcm.len() <= MODEL_MAX_SAMPLES {
         st.cases += 1;
         out.case(dec_stream_case(file, Some(pcm), &[("src", esc("encoder")), ("cfg", cfg.json())]));
     }
@@ -234,7 +234,7 @@ fn main() {
                 Err(e) => { out.viol("stream-frame-independent-decoder-rejects", &format!("independent decoder rejects raw frame {}: {}", k, e), &[("bytes", esc(&hex(&bytes)))]); break; }
             }
         }
-        if st.cases < st.max_cases + 60 && bytes.len() < 2500 && !bytes.is_empty() { st.cases += 1; out.case(dec_subset_case(&bytes, &[("src", esc("stream_writer"))])); }
+        if st.cases < st.max_cases + 60 && bytes.len() < 2500 && !bytes.is_empty() && written.iter().map(|f| f.samples.len()).sum::<usize>() <= MODEL_MAX_SAMPLES { st.cases += 1; out.case(dec_subset_case(&bytes, &[("src", esc("stream_writer"))])); }
     }
 
     let m = |m: &BTreeMap<String, usize>| format!("{{{}}}", m.iter().map(|(k, v)| format!("{}:{}", esc(k), v)).collect::<Vec<_>>().join(","));
